@@ -11,7 +11,7 @@ namespace GoRes.Driver.QH
 open GoRes GoRes.Wire GoRes.Index GoRes.QueryHandler
 open GoRes.Driver.Idx (Val idxs idxOf filterFn filterOpt)
 
-inductive Kind | coll | byp | cbyp | qq | qc | qp
+inductive Kind | coll | fixed | byp | cbyp | qq | qc | qp
 deriving Repr, DecidableEq
 
 structure Query where
@@ -38,7 +38,7 @@ structure St where
 def ridOf : RidOf := fun id => str "svc.item." ++ id
 
 def transOf : Kind → Trans
-  | .coll | .qq => .none
+  | .coll | .fixed | .qq => .none
   | .cbyp | .qc => .coll
   | .byp | .qp => .model
 
@@ -144,6 +144,7 @@ def parseHold (args : List Str) : Option (Bytes × Kind × Query) :=
   | [rid] =>
     let s := Str.show rid
     if s = "coll" then some (rid, .coll, plain (str "k") [])
+    else if s = "fixed" then some (rid, .fixed, ⟨str "kg", str "g_", str "none", 0, -1, true⟩)
     else if sstarts s "byp." then some (rid, .byp, plain (str "k") (rid.drop 4))
     else if sstarts s "cbyp." then some (rid, .cbyp, plain (str "k") (rid.drop 5))
     else none
@@ -262,7 +263,7 @@ def run (st : St) (args : List Str) (impl : String) : St × String × String × 
           let s := transformResult (transOf kind) ridOf (specResult st.idx.vals q)
           let client := if sstarts impl "ok " then (parseContent (sdrop 3 impl)).getD m else m
           ({ st with held := st.held ++ [⟨rid, kind, q, client⟩] }, "ok " ++ encContent m, "ok " ++ encContent s,
-            "hold-" ++ (match kind with | .coll => "coll" | .byp => "byp" | .cbyp => "cbyp" | .qq => "qq" | .qc => "qc" | .qp => "qp"))
+            "hold-" ++ (match kind with | .coll => "coll" | .fixed => "fixed" | .byp => "byp" | .cbyp => "cbyp" | .qq => "qq" | .qc => "qc" | .qp => "qp"))
     else if c = str "delete" then
       match rest with
       | [id] => mutation st id .delete impl
